@@ -68,6 +68,10 @@ func init() {
 		Mutant{Name: "c05-encode-no-body-nil", Prop: "C05", File: "nas.go", Old: "return nil, fmt.Errorf(\"Gmm/Gsm Message are both empty in Nas Message Encode\")", New: "return data.Bytes(), nil",
 			Expect: "no-body-error", Why: "a message with no body encodes to nothing without error"},
 		Mutant{Name: "c05-keep-empty-guard-form", Prop: "C05", File: "nas.go", Old: "if len(*byteArray) == 0 {", New: "if len(*byteArray) < 1 {", Keep: true, Why: "same guard"},
+		Mutant{Name: "c04-optional-item-order", Prop: "C04", File: "nasMessage/NAS_ULNASTransport.go",
+			Old: "\t\tif err := binary.Write(buffer, binary.BigEndian, a.DNN.GetIei()); err != nil {\n\t\t\treturn fmt.Errorf(\"NAS encode error (ULNASTransport/DNN): %w\", err)\n\t\t}\n\t\tif err := binary.Write(buffer, binary.BigEndian, a.DNN.GetLen()); err != nil {",
+			New: "\t\tif err := binary.Write(buffer, binary.BigEndian, a.DNN.GetLen()); err != nil {\n\t\t\treturn fmt.Errorf(\"NAS encode error (ULNASTransport/DNN): %w\", err)\n\t\t}\n\t\tif err := binary.Write(buffer, binary.BigEndian, a.DNN.GetIei()); err != nil {",
+			Expect: "table.format / nasMessage.(*ULNASTransport).EncodeULNASTransport / DNN", Why: "length octet emitted before the identifier of an optional TLV element (found while testing a behaviour-preserving variant broken on purpose; the format rule looked at which items a slot has, not at their order)"},
 	)
 }
 
